@@ -389,7 +389,7 @@ func splitPeriod(mpd *m.MPD, a *asset, cfg *ResponseConfig, wTimes wrapTimes) er
 	}
 	periodDur := 3600 / *cfg.PeriodsPerHour
 	if periodDur*1000%a.SegmentDurMS != 0 {
-		return fmt.Errorf("period duration %ds not a multiple of segment duration %dms", periodDur, a.SegmentDurMS)
+		return badConfigError{fmt.Sprintf("period duration %ds not a multiple of segment duration %dms", periodDur, a.SegmentDurMS)}
 	}
 
 	// Period@start and the media timeline are relative to availabilityStartTime, so the period numbers must be as well
@@ -653,7 +653,7 @@ func addTimeSubs(cfg *ResponseConfig, a *asset, period *m.Period, languages []st
 		}
 	}
 	if vAS == nil {
-		return fmt.Errorf("no video adaptation set found")
+		return badConfigError{"no video adaptation set found"}
 	}
 	segDurMS := a.SegmentDurMS
 	typicalStppSegSizeBits := 2000 * 8 // 2kB
